@@ -49,7 +49,7 @@ pub struct L(pub Vec<u8>);
 struct ReplRan(bool);
 
 /// never replicated
-#[derive(Component)]
+#[derive(Component, Serialize, Deserialize, Clone)]
 pub struct N(#[allow(dead_code)] pub u32);
 
 pub const PERIOD: u32 = 3;
@@ -119,6 +119,10 @@ fn log_events(app: &mut App) {
 
 #[derive(Clone)]
 pub struct Cfg {
+    /// bit mask of clients built with a different protocol (one more replicated component)
+    pub wrong: u32,
+    /// C06 cases: client 0 is an attacker whose traffic is injected bytes
+    pub junk: bool,
     pub events: bool,
     pub dedicated: bool,
     pub whitelist: bool,
@@ -131,14 +135,16 @@ pub struct Cfg {
 impl Cfg {
     fn header(&self, id: u64) -> String {
         format!(
-            "case {id} sys policy={} clients={} track={} sync={} auth={} events={} dedicated={}",
+            "case {id} sys policy={} clients={} track={} sync={} auth={} events={} dedicated={}{}{}",
             if self.whitelist { "white" } else { "black" },
             self.clients,
             self.track as u8,
             self.sync as u8,
             self.auth,
             self.events as u8,
-            self.dedicated as u8
+            self.dedicated as u8,
+            if self.junk { " junk=1" } else { "" },
+            if self.wrong != 0 { format!(" wrong={}", self.wrong) } else { String::new() }
         )
     }
     fn parse(line: &str) -> Cfg {
@@ -148,6 +154,8 @@ impl Cfg {
                 .unwrap_or_default()
         };
         Cfg {
+            wrong: get("wrong").parse().unwrap_or(0),
+            junk: get("junk") == "1",
             events: get("events") == "1",
             dedicated: get("dedicated") == "1",
             whitelist: get("policy") == "white",
@@ -181,6 +189,8 @@ pub struct Sys {
     n_client_channels: usize,
     /// lengths of the mutate messages sent to client 0 in the last server frame
     last_mutate_lens: Vec<usize>,
+    /// bytes injected with `junk` since the last server frame
+    junk_bytes: usize,
 }
 
 fn auth_method(cfg: &Cfg) -> AuthMethod {
@@ -191,7 +201,7 @@ fn auth_method(cfg: &Cfg) -> AuthMethod {
     }
 }
 
-fn common(app: &mut App, cfg: &Cfg, is_server: bool) {
+fn common(app: &mut App, cfg: &Cfg, is_server: bool, wrong: bool) {
     let group = RepliconPlugins
         .build()
         .set(ServerPlugin {
@@ -217,6 +227,10 @@ fn common(app: &mut App, cfg: &Cfg, is_server: bool) {
         .replicate_periodic::<P>(PERIOD)
         .replicate::<R>()
         .replicate::<L>();
+    if wrong {
+        // a client built from different code: its protocol hash differs
+        app.replicate::<N>();
+    }
     if cfg.events {
         app.add_server_event::<SeOrd>(Channel::Ordered)
             .add_mapped_server_event::<SeMap>(Channel::Ordered)
@@ -234,7 +248,7 @@ fn common(app: &mut App, cfg: &Cfg, is_server: bool) {
 impl Sys {
     pub fn new(cfg: Cfg) -> Sys {
         let mut server = App::new();
-        common(&mut server, &cfg, true);
+        common(&mut server, &cfg, true, false);
         server.init_resource::<ReplRan>().add_systems(
             PostUpdate,
             (|mut r: ResMut<ReplRan>| r.0 = true)
@@ -248,9 +262,9 @@ impl Sys {
             (ch.server_channels().len(), ch.client_channels().len())
         };
         let mut clients = Vec::new();
-        for _ in 0..cfg.clients {
+        for c in 0..cfg.clients {
             let mut app = App::new();
-            common(&mut app, &cfg, false);
+            common(&mut app, &cfg, false, cfg.wrong & (1 << c) != 0);
             app.finish();
             clients.push(Cli {
                 app,
@@ -272,6 +286,7 @@ impl Sys {
             n_server_channels: ns,
             n_client_channels: nc,
             last_mutate_lens: Vec::new(),
+            junk_bytes: 0,
         }
     }
 
@@ -537,8 +552,9 @@ impl Sys {
             }
             "junk" => {
                 let (c, ch) = (us(1), us(2));
-                match (self.clients[c].server_side, unhex(t[3])) {
+                match (self.clients[c].server_side, if t[3] == "-" { Some(Vec::new()) } else { unhex(t[3]) }) {
                     (Some(ce), Some(bytes)) if ch < self.n_client_channels => {
+                        self.junk_bytes += bytes.len() + 1;
                         self.server.world_mut().resource_mut::<RepliconServer>().insert_received(ce, ch, bytes);
                         writeln!(out, "= ok").unwrap();
                     }
@@ -711,13 +727,34 @@ impl Sys {
             self.server.world_mut().resource_mut::<ServerTick>().increment();
         }
         self.server.world_mut().resource_mut::<ReplRan>().0 = false;
+        let junk = std::mem::take(&mut self.junk_bytes);
+        if junk > 0 {
+            // if the process dies in this frame the trace so far must be out
+            out.flush().unwrap();
+            crate::ALLOC_MAX.store(0, std::sync::atomic::Ordering::Relaxed);
+            crate::ALLOC_TRACK.store(true, std::sync::atomic::Ordering::Relaxed);
+        }
         let r = catch_unwind(AssertUnwindSafe(|| self.server.update()));
+        crate::ALLOC_TRACK.store(false, std::sync::atomic::Ordering::Relaxed);
         if r.is_err() {
             self.server_panicked = true;
             writeln!(out, "= panic server").unwrap();
             return;
         }
-        // clients whose entity disappeared (DisconnectRequest / stop)
+        if junk > 0 {
+            writeln!(out, "= alloc max={} junk={}", crate::ALLOC_MAX.load(std::sync::atomic::Ordering::Relaxed), junk).unwrap();
+        }
+        // the backend's part of the handshake: a client the server asks to disconnect is dropped
+        // (after this frame's messages and observations were attributed to it)
+        let requests: Vec<Entity> = self.server.world_mut().resource_mut::<Events<DisconnectRequest>>().drain().map(|r| r.client).collect();
+        let mut to_cut = Vec::new();
+        for e in requests {
+            match self.clients.iter().position(|c| c.server_side == Some(e)) {
+                Some(c) => { writeln!(out, "= disc c={c}").unwrap(); to_cut.push((c, e)); }
+                None => writeln!(out, "= disc c=?").unwrap(),
+            }
+        }
+        // clients whose entity disappeared (stop)
         for c in 0..self.clients.len() {
             if let Some(ce) = self.clients[c].server_side {
                 if self.server.world().get_entity(ce).is_err() {
@@ -746,6 +783,12 @@ impl Sys {
             }
         }
         self.print_evlog(None, out);
+        for (c, e) in to_cut {
+            self.cut(c);
+            if self.server.world().get_entity(e).is_ok() {
+                self.server.world_mut().entity_mut(e).despawn();
+            }
+        }
         self.print_server(out);
     }
 
@@ -892,10 +935,30 @@ pub fn generate(opts: &Opts, profile: &str, out: &mut Out) {
         let mut crng = rng.fork();
         if id % nshards != shard { continue; }
         let cfg = match profile {
-            "sys_vis" => Cfg { events: false, dedicated: false, whitelist: crng.chance(1, 2), clients: crng.range(1, 2) as usize, track: false, sync: false, auth: "none".into() },
-            "sys_split" => Cfg { events: false, dedicated: false, whitelist: false, clients: 1, track: crng.chance(1, 3), sync: crng.chance(2, 3), auth: "none".into() },
-            "sys_auth" => Cfg { events: false, dedicated: false, whitelist: crng.chance(1, 3), clients: crng.range(1, 3) as usize, track: false, sync: false, auth: (*crng.pick(&["check", "custom", "none"])).into() },
+            "sys_vis" => Cfg { wrong: 0, junk: false, events: false, dedicated: false, whitelist: crng.chance(1, 2), clients: crng.range(1, 2) as usize, track: false, sync: false, auth: "none".into() },
+            "sys_split" => Cfg { wrong: 0, junk: false, events: false, dedicated: false, whitelist: false, clients: 1, track: crng.chance(1, 3), sync: crng.chance(2, 3), auth: "none".into() },
+            "sys_auth" => {
+                let clients = crng.range(1, 3) as usize;
+                let auth: String = (*crng.pick(&["check", "check", "custom", "none"])).into();
+                // under the default protocol check some clients come from different code
+                let wrong = if auth == "check" && crng.chance(1, 2) { (crng.below(1 << clients) as u32).max(1) } else { 0 };
+                Cfg { wrong, junk: false, events: false, dedicated: false, whitelist: crng.chance(1, 3), clients, track: false, sync: false, auth }
+            }
+            "sys_junk" => Cfg {
+                wrong: 0,
+                junk: true,
+                events: true,
+                dedicated: crng.chance(1, 4),
+                whitelist: false,
+                clients: 2,
+                track: false,
+                sync: false,
+                // the exhaustive cases come first and use the configuration with all five channel kinds
+                auth: if id < (if opts.thorough { 10300 } else { 64 }) { "check".into() } else { (*crng.pick(&["none", "custom", "check", "check"])).into() },
+            },
             "sys_evt" => Cfg {
+                wrong: 0,
+                junk: false,
                 events: true,
                 dedicated: crng.chance(1, 4),
                 whitelist: crng.chance(1, 5),
@@ -905,6 +968,8 @@ pub fn generate(opts: &Opts, profile: &str, out: &mut Out) {
                 auth: (*crng.pick(&["none", "none", "none", "custom"])).into(),
             },
             _ => Cfg {
+                wrong: 0,
+                junk: false,
                 events: false,
                 dedicated: false,
                 whitelist: crng.chance(1, 4),
@@ -917,9 +982,178 @@ pub fn generate(opts: &Opts, profile: &str, out: &mut Out) {
         writeln!(out, "{}", cfg.header(id)).unwrap();
         let nclients = cfg.clients;
         let mut g = Gen { rng: crng, sys: Sys::new(cfg), buf: Vec::new(), window_muts: Vec::new(), next_ent: 0, next_pre: vec![0; nclients], val: 1 };
-        g.run(profile);
+        if profile == "sys_junk" {
+            // legitimate event ids stay clear of anything short injected strings decode to
+            g.val = 3_000_000_000;
+            g.run_junk(id, opts.thorough, out);
+        } else {
+            g.run(profile);
+        }
         out.write_all(&g.buf).unwrap();
         writeln!(out, "end").unwrap();
+    }
+}
+
+/// postcard varint
+fn varint(mut v: u64) -> Vec<u8> {
+    let mut o = Vec::new();
+    loop {
+        let b = (v & 0x7f) as u8;
+        v >>= 7;
+        if v == 0 { o.push(b); return o; }
+        o.push(b | 0x80);
+    }
+}
+
+impl Gen {
+    /// the trace so far goes out before a step that may kill the process
+    fn drain(&mut self, out: &mut Out) {
+        out.write_all(&self.buf).unwrap();
+        self.buf.clear();
+        out.flush().unwrap();
+    }
+
+    fn channel_kinds(&self) -> Vec<&'static str> {
+        if self.sys.cfg.auth == "check" { vec!["acks", "hash", "ord", "map", "trig"] } else { vec!["acks", "ord", "map", "trig"] }
+    }
+
+    /// a well-formed message for a channel kind
+    fn template(&mut self, kind: &str) -> Vec<u8> {
+        let id = self.rng.below(1000);
+        let ent_bits = match self.live() {
+            Some(i) if self.rng.chance(3, 4) => self.sys.ents[i].unwrap().to_bits(),
+            _ => ((self.rng.range(1, 3)) << 32) | self.rng.below(20),
+        };
+        let compact = |bits: u64| -> Vec<u8> {
+            let (idx, generation) = (bits & 0xffff_ffff, bits >> 32);
+            if generation > 1 { let mut v = varint(idx * 2 + 1); v.extend(varint(generation - 1)); v } else { varint(idx * 2) }
+        };
+        match kind {
+            "acks" => {
+                let n = self.rng.range(1, 4);
+                (0..n).flat_map(|_| { let i = self.rng.below(6) as u16; i.to_le_bytes() }).collect()
+            }
+            "ord" => varint(id),
+            "map" => { let mut v = varint(id); v.extend(varint(ent_bits)); v }
+            "hash" => {
+                // the real message if the attacker's app produced one, else a plausible one
+                let mut v = vec![0u8];
+                v.extend(varint(self.rng.next()));
+                v
+            }
+            _ => {
+                let n = self.rng.below(4);
+                let mut v = varint(n);
+                for _ in 0..n { v.extend(compact(ent_bits)); }
+                v.extend(varint(id));
+                v
+            }
+        }
+    }
+
+    fn mutate(&mut self, mut m: Vec<u8>) -> Vec<u8> {
+        let huge: [&[u8]; 7] = [
+            &[0xff, 0xff, 0xff, 0xff, 0xff, 0xff, 0xff, 0xff, 0xff, 0x01],
+            &[0xff, 0xff, 0xff, 0xff, 0xff, 0xff, 0xff, 0xff, 0x7f],
+            &[0xff, 0xff, 0xff, 0xff, 0x0f],
+            &[0x80, 0x80, 0x80, 0x80, 0x80, 0x80, 0x80, 0x80, 0x80, 0x80, 0x80],
+            &[0x01, 0xff, 0xff, 0xff, 0xff, 0x0f],
+            &[0x01, 0xff, 0xff, 0xff, 0xff, 0x07],
+            &[0xff, 0xff, 0xff, 0xff, 0xff, 0xff, 0xff, 0xff, 0xff, 0xff, 0xff],
+        ];
+        match self.rng.below(10) {
+            0 => {}
+            1 => { let n = self.rng.below(m.len() as u64 + 1) as usize; m.truncate(n); }
+            2 => { for _ in 0..self.rng.range(1, 6) { m.push(self.rng.below(256) as u8); } }
+            3 if !m.is_empty() => { let i = self.rng.below(m.len() as u64) as usize; m[i] ^= 1 << self.rng.below(8); }
+            4 if !m.is_empty() => { let i = self.rng.below(m.len() as u64) as usize; m[i] = *self.rng.pick(&[0u8, 0x7f, 0x80, 0xff]); }
+            5 => { let h = *self.rng.pick(&huge); let mut v = h.to_vec(); v.extend(m); m = v; }
+            6 => { let h = *self.rng.pick(&huge); let i = self.rng.below(m.len() as u64 + 1) as usize; let tail = m.split_off(i); m.extend_from_slice(h); m.extend(tail); }
+            7 => { m = (0..self.rng.below(12)).map(|_| self.rng.below(256) as u8).collect(); }
+            8 => { let n = self.rng.range(50, 400); m.extend((0..n).map(|_| 0xffu8)); }
+            _ => { m.insert(0, self.rng.range(1, 200) as u8); }
+        }
+        m
+    }
+
+    /// C06: client 0 injects bytes on every client channel of a live server while client 1
+    /// behaves; afterwards everything is flushed and client 1 must have converged.
+    fn run_junk(&mut self, id: u64, thorough: bool, out: &mut Out) {
+        self.step("start".into());
+        for _ in 0..self.rng.range(1, 3) { self.spawn("sys"); }
+        self.step("connect 0".into());
+        self.step("connect 1".into());
+        let kinds = self.channel_kinds();
+        let attacker_authorized = id % 2 == 0;
+        match self.sys.cfg.auth.as_str() {
+            "custom" => {
+                self.step("auth 1".into());
+                if attacker_authorized { self.step("auth 0".into()); }
+            }
+            "check" => {
+                for c in [1usize, 0] {
+                    if c == 0 && !attacker_authorized { continue; }
+                    self.step(format!("cframe {c}"));
+                    while !self.sys.clients[c].c2s[1].is_empty() { self.step(format!("deliver {c} c2s 1 0")); }
+                }
+            }
+            _ => {}
+        }
+        self.step("sframe tick=1".into());
+        self.network(0);
+        self.step("cframe 1".into());
+        // the exhaustive part: every string up to a small length on every channel
+        let per_case = 64u64;
+        let space: u64 = if thorough { 1 + 256 + 65536 } else { 1 + 256 };
+        let total = space * kinds.len() as u64;
+        let exhaustive_cases = 2 * ((total + per_case - 1) / per_case);
+        let mut injected = 0;
+        if id < exhaustive_cases {
+            let first = (id / 2) * per_case;
+            for k in first..(first + per_case).min(total) {
+                let ch = (k / space) as usize;
+                let j = k % space;
+                let bytes: Vec<u8> = if j == 0 { vec![] } else if j <= 256 { vec![(j - 1) as u8] } else { vec![((j - 257) >> 8) as u8, ((j - 257) & 0xff) as u8] };
+                self.step(format!("junk 0 {ch} {}", if bytes.is_empty() { "-".to_string() } else { hex(&bytes) }));
+                injected += 1;
+                if injected % 8 == 0 {
+                    self.drain(out);
+                    self.step("sframe tick=1".into());
+                }
+            }
+        } else {
+            let steps = self.rng.range(8, 40);
+            for _ in 0..steps {
+                match self.rng.below(100) {
+                    0..=54 => {
+                        let ch = self.rng.below(kinds.len() as u64) as usize;
+                        let t = self.template(kinds[ch]);
+                        let m = self.mutate(t);
+                        self.step(format!("junk 0 {ch} {}", if m.is_empty() { "-".to_string() } else { hex(&m) }));
+                    }
+                    55..=74 => {
+                        self.drain(out);
+                        let tick = self.rng.chance(2, 3) as u8;
+                        self.step(format!("sframe tick={tick}"));
+                        self.network(0);
+                    }
+                    75..=84 => self.world_op("sys"),
+                    85..=92 => { self.network(0); let c = self.rng.below(2); self.step(format!("cframe {c}")); }
+                    93..=95 => {
+                        let id = self.v();
+                        self.step(format!("cev 1 ord {id}"));
+                    }
+                    96..=97 if self.sys.cfg.auth == "custom" => self.step("auth 0".into()),
+                    _ => {
+                        let id = self.v();
+                        self.step(format!("sev ord {id} b"));
+                    }
+                }
+            }
+        }
+        self.drain(out);
+        self.step("sframe tick=1".into());
+        self.step(format!("flush {}", 3 + PERIOD + 1));
     }
 }
 
